@@ -70,9 +70,10 @@ class FileWriter(AbstractWriter):
         tfile = None
 
         try:
+            octets = encode(data)
+
             fd, tfile = tempfile.mkstemp(dir=self._path)
 
-            octets = encode(data)
             while octets:
                 # os.write() may write less than asked for
                 written = os.write(fd, octets)
